@@ -431,8 +431,47 @@ def gen_faults(tier: str, rng: random.Random, focus: str = "c03") -> Iterator[Di
                     yield sc
 
 
+def gen_queue_full_close(tier: str, rng: random.Random) -> Iterator[Dict[str, Any]]:
+    """The application's bounded queue is exactly full (or one short / one over) when the
+    connection is closed under it; the application then wakes up, drains, answers and keeps
+    listening (probe) so that a second disconnect or anything after it would be seen."""
+    for q in (1, 2, 10):
+        for nmsg in sorted(set([q - 1, q, q + 1])):
+            if nmsg < 1:
+                continue
+            nchunks = nmsg - 1  # + the end-of-body message
+            for closer in ("eof", "reset", "fail", "shutdown", "none", "expire"):
+                for respond in (True, False):
+                    body = {"framing": "chunked", "len": 2 * nchunks, "chunks": [2] * nchunks} if nchunks else None
+                    rq: Dict[str, Any] = {"rid": 1, "method": "POST" if body else "GET", "target": "/qf"}
+                    if body:
+                        rq["body"] = body
+                    prog: List[Any] = [["gate"], ["recv_body"]]
+                    if respond:
+                        prog += [["send", {"type": "http.response.start", "status": 200, "headers": [["content-length", "2"]]}],
+                                 ["send", {"type": "http.response.body", "pat": [88, 0, 2], "more": False}]]
+                    prog += [["recv_disc"], ["probe"]]
+                    sc = base_script([rq], {"1": prog}, cfg={"max_app_queue_size": q},
+                                     fam="c03/queue-full/%d/%d/%s/%s" % (q, nmsg, closer, respond))
+                    total = stream_len(sc)
+                    steps: List[Dict[str, Any]] = []
+                    # one chunk per read so that every chunk is its own queue entry
+                    for seg in sc["reqs"][0]["segs"]:
+                        steps.append({"s": "send", "upto": seg[1] + 2})
+                    steps.append({"s": "send", "upto": total})
+                    if closer == "expire":
+                        steps.append({"s": "dt", "d": 5.0})
+                    elif closer != "none":
+                        steps.append({"s": closer})
+                    steps.append({"s": "go", "app": "1", "n": 1})
+                    steps.append({"s": "dt", "d": 0.1})
+                    sc["steps"] = steps
+                    yield sc
+
+
 def gen_c03(tier: str, rng: random.Random) -> Iterator[Dict[str, Any]]:
     yield from gen_faults(tier, rng, "c03")
+    yield from gen_queue_full_close(tier, rng)
 
 
 def gen_c05(tier: str, rng: random.Random) -> Iterator[Dict[str, Any]]:
